@@ -2760,6 +2760,13 @@ else {
       (data_chunk_table[i].end.offset - data_chunk_table[i].start.offset) -
 		(TAG_SIZE + DISK_POINTER_SIZE) ;
 
+	/** A chunk cannot end before it starts (damaged table) **/
+      if( bytes_to_read < 0 ) {
+	 free( data_chunk_table ) ;
+	 *error_return = ADF_DISK_TAG_ERROR ;
+	 CHECK_ADF_ABORT( *error_return ) ;
+	 } /* end if */
+
 	/** Check to be sure we aren't reading too much data
 		(shrinking a data block can cause this)
 	**/
@@ -2782,7 +2789,10 @@ else {
    free( data_chunk_table ) ;
    if( bytes_read < total_bytes ) {
       *error_return = INCOMPLETE_DATA ;
-      memset( data_pointer, 0, (size_t)(total_bytes - bytes_read) ) ;
+	/** bytes_read and total_bytes count bytes of the file, data_pointer
+	    moves in memory (see the note above) **/
+      memset( data_pointer, 0,
+	      (size_t)((total_bytes - bytes_read) * memory_bytes / file_bytes) ) ;
       } /* end if */
    } /* end else */
 
